@@ -88,7 +88,7 @@ def run(pid, tier, seed):
                     target = items.get(g["target"])
                     rep = target.shape_tag() if target else "?"
                     ttags = [t for t in g["target_tags"] if t.startswith(("k:", "f:flatten", "f:inline", "enum-", "struct-", "v:untagged"))]
-                    ktags = sorted({"dep:" + t for t in dep_ktags(target)}) if target else []
+                    ktags = sorted({"dep:" + t for t in dep_ktags(target, items)}) if target else []
                     report_problems(chk, ev, items, g["target"], "group")
                     for cname, res in ev["checks"].items():
                         chk.add_eval()
@@ -120,15 +120,19 @@ def run(pid, tier, seed):
     return chk.finish(min_evaluations=200, min_distinct=20)
 
 
-def dep_ktags(item):
+def dep_ktags(item, items=None):
+    """`k:` tags of everything below `item`; parents of a presentation group also reach the group's field type
+    (which `as = "F"` carries only as a string) through the `<id>@target` links in `items`"""
     seen, out, work = set(), set(), [item]
     while work:
         it = work.pop()
-        if it.id in seen:
+        if it is None or it.id in seen:
             continue
         seen.add(it.id)
         out |= {t for t in it.feature_tags() if t.startswith("k:")}
         work.extend(it.deps())
+        if items is not None and (it.id + "@target") in items:
+            work.append(items[it.id + "@target"])
     return out
 
 
@@ -137,10 +141,10 @@ def ktags_of(items, entry_id):
     for key in (entry_id.split("#")[0], entry_id + "@target", entry_id.split("#")[0] + "@target"):
         it = items.get(key)
         if it is not None:
-            out |= {"dep:" + t for t in dep_ktags(it)}
-    for key, it in items.items():
+            out |= {"dep:" + t for t in dep_ktags(it, items)}
+    for key, it in list(items.items()):
         if key.startswith(entry_id + "@arg"):
-            out |= {"dep:" + t for t in dep_ktags(it)}
+            out |= {"dep:" + t for t in dep_ktags(it, items)}
     return sorted(out)
 
 
